@@ -20,6 +20,15 @@ def extract(data: bytes, name: str, buf=None):
     return list(get_extractor(name)(buf if buf is not None else io.BytesIO(data), name))
 
 
+def library_location() -> str:
+    """directory the library under test is (or would be) imported from - WITHOUT importing it (a configuration process must
+    still be a process that has not touched the library when its first extraction starts)"""
+    import importlib.util
+    import os
+    spec = importlib.util.find_spec("sharepoint2text")
+    return os.path.realpath(os.path.dirname(spec.origin)) if spec and spec.origin else "<not found>"
+
+
 def exc_name(e) -> str:
     """exception type with the types of its cause chain (the library wraps most errors in ExtractionFailedError)"""
     names = [type(e).__name__]
